@@ -21,6 +21,7 @@ def check(run):
     ec.run_family_js(run, 'js-header', 'Q_C07', 'R_2x2', maxA=1, hdrmodes=(False, True), opts={'nontrivial_rule': 'header'})
     ec.run_family_js(run, 'js-header-join', 'Q_C07join', 'R_2x2', recsB='R_2x2', maxA=1, maxB=1, hdrmodes=(False, True))
     ec.run_family_js(run, 'js-aggregates', 'Q_C03js', 'R_num', maxA=2 if quick else 3)
+    ec.run_family_js(run, 'js-constant-column-falsy-first-value', 'Q_C03const', 'R_keyse', maxA=3)
     ec.run_family_js(run, 'js-aggregates-zero-negative', 'Q_C03med', 'R_numz', maxA=3)
     ec.run_family_js(run, 'js-aggregates-mixed-width-numbers', 'Q_C03med', 'R_numw', maxA=3)
     ec.run_family_js(run, 'js-group-key-order', 'Q_C03key', 'R_keysp', maxA=3)
